@@ -490,6 +490,18 @@ func c11Refresh(p *chk.Prog, r *chk.Report) {
 			}
 			lit, ok := d.Call.Fun.(*ast.FuncLit)
 			if !ok {
+				// the notification as a deferred call of a named function / method of the package, handed the list (by
+				// pointer, so that what is collected later is seen)
+				if fo, _ := sp.Callee(d.Call).(*types.Func); fo != nil {
+					if cf := p.FnOf(fo.Origin()); cf != nil && cf.Body != nil {
+						r.Saw(cf)
+						for _, rs := range cf.RangeLoops(chk.Any) {
+							if !loopCanSkip(cf.Graph(), rs, cf.ContainsPat("RECV.countersChangedCallback(P)", chk.H("P", rangeVal(cf, rs)))) && !loopHasBreak(cf.Graph(), rs) {
+								okDefer = true
+							}
+						}
+					}
+				}
 				return true
 			}
 			lf := sp.LitFn(lit)
